@@ -23,6 +23,24 @@ func vxLabelStage(name, val string) logql_parser.StrSelectorPipeline {
 // vxScript builds a log query AST: {app="a"} followed by stages chosen nondeterministically from a label
 // filter before any parser, a line filter, a parser (json / logfmt) and a label filter after the parser.
 func vxScript() *logql_parser.LogQLScript {
+	if vrt.Bool("metric-query") {
+		// rate({app="a"} [|= "needle"] [1m]) plain, or aggregated: sum by (level) (...) / sum without (pod) (...)
+		sel := logql_parser.StrSelector{StrSelCmds: []logql_parser.StrSelCmd{{Label: logql_parser.LabelName{Name: "app"}, Op: "=", Val: vxQ("a")}}}
+		if vrt.Bool("line-filter") {
+			sel.Pipelines = append(sel.Pipelines, logql_parser.StrSelectorPipeline{LineFilter: &logql_parser.LineFilter{Fn: "|=", Val: vxQ("needle")}})
+		}
+		lra := logql_parser.LRAOrUnwrap{Fn: []string{"rate", "count_over_time"}[vrt.Choice("range-function", 2)], StrSel: sel, Time: "1", TimeUnit: "m"}
+		switch vrt.Choice("grouping", 3) {
+		case 0:
+			return &logql_parser.LogQLScript{LRAOrUnwrap: &lra}
+		case 1:
+			return &logql_parser.LogQLScript{AggOperator: &logql_parser.AggOperator{Fn: "sum", LRAOrUnwrap: lra,
+				ByOrWithoutPrefix: &logql_parser.ByOrWithout{Fn: "by", Labels: []logql_parser.LabelName{{Name: "level"}}}}}
+		default:
+			return &logql_parser.LogQLScript{AggOperator: &logql_parser.AggOperator{Fn: "sum", LRAOrUnwrap: lra,
+				ByOrWithoutSuffix: &logql_parser.ByOrWithout{Fn: "without", Labels: []logql_parser.LabelName{{Name: "pod"}}}}}
+		}
+	}
 	sel := &logql_parser.StrSelector{StrSelCmds: []logql_parser.StrSelCmd{{Label: logql_parser.LabelName{Name: "app"}, Op: "=", Val: vxQ("a")}}}
 	if vrt.Bool("label-filter-before-parser") {
 		sel.Pipelines = append(sel.Pipelines, vxLabelStage("env", "prod"))
@@ -40,7 +58,7 @@ func vxScript() *logql_parser.LogQLScript {
 }
 
 func vxCtx(tick int64) *shared.PlannerContext {
-	return &shared.PlannerContext{From: time.Unix(1700000000+tick, 0), To: time.Unix(1700000005+tick, 0), Limit: 10,
+	return &shared.PlannerContext{From: time.Unix(1700000000+tick, 0), To: time.Unix(1700000005+tick, 0), Limit: 10, Step: 5 * time.Second,
 		SamplesTableName: "samples_v3", TimeSeriesTableName: "time_series", TimeSeriesDistTableName: "time_series",
 		TimeSeriesGinTableName: "time_series_gin", CHSqlCtx: sql.DefaultCtx(), CHFinalize: true}
 }
